@@ -7,6 +7,8 @@ import (
 	"errors"
 	"fmt"
 	"io"
+	"runtime"
+	"runtime/debug"
 	"time"
 
 	kafka "github.com/segmentio/kafka-go"
@@ -70,6 +72,12 @@ func controlBatch(base int64, ts int64, t *Tape, st string) rc.Batch {
 
 func recordsScenario(s *Sim, params map[string]string) {
 	t := s.T
+	// pooled pages and codec objects must not leak from one run into the
+	// next (single-run replay): empty the sync.Pools, hold the collector off
+	runtime.GC()
+	runtime.GC()
+	oldGC := debug.SetGCPercent(-1)
+	s.AtEnd(func() { debug.SetGCPercent(oldGC) })
 	n := NewNet(s)
 	n.MinLatency = time.Duration(t.Range("cfg", 0, 3)) * 100 * time.Microsecond
 	n.MaxLatency = n.MinLatency + time.Duration(t.Range("cfg", 0, 10))*100*time.Microsecond
